@@ -13,12 +13,21 @@ pub enum Raw {
     Hook(Event, Vec<f64>),
     /// a `score()` call seen by the wrapper: vector at the call, value returned
     Score(Vec<f64>, Option<f64>),
+    /// the score just recorded differs from the score of a fresh copy of the same state (the state
+    /// written to JSON and read back): (score of the state object in use, score of the copy)
+    Stale(Option<f64>, Option<f64>),
 }
 
 thread_local! {
     static LOG: RefCell<Vec<Raw>> = RefCell::new(Vec::new());
     static READER: RefCell<Option<Box<dyn Fn() -> Vec<f64>>>> = RefCell::new(None);
     static ON_EVENT: RefCell<Option<Box<dyn FnMut(&Event, &[f64])>>> = RefCell::new(None);
+    static FRESH: RefCell<Option<Box<dyn Fn() -> Option<Option<f64>>>>> = RefCell::new(None);
+}
+
+/// Install (or remove) the closure that scores a fresh copy of the state under observation.
+pub fn set_fresh(f: Option<Box<dyn Fn() -> Option<Option<f64>>>>) {
+    FRESH.with(|x| *x.borrow_mut() = f);
 }
 
 pub fn read_vec() -> Vec<f64> {
@@ -30,6 +39,17 @@ pub fn read_vec() -> Vec<f64> {
 
 pub fn push_score(vec: Vec<f64>, score: Option<f64>) {
     LOG.with(|l| l.borrow_mut().push(Raw::Score(vec, score)));
+    let fresh = FRESH.with(|f| f.borrow().as_ref().and_then(|f| f()));
+    if let Some(fs) = fresh {
+        let same = match (score, fs) {
+            (Some(a), Some(b)) => a.to_bits() == b.to_bits(),
+            (None, None) => true,
+            _ => false,
+        };
+        if !same {
+            LOG.with(|l| l.borrow_mut().push(Raw::Stale(score, fs)));
+        }
+    }
 }
 
 /// Install reader + observer, clear the log.
